@@ -231,3 +231,71 @@ func feasible(info *types.Info, g *core.Graph, path []int) bool {
 	}
 	return true
 }
+
+// resolveOnPath follows an identifier to the value it holds at path[at], using the assignments met on the path itself
+// (the reaching definition along this one path): `x = e`, `x := e`, parallel assignments and `var x = e`. It works for
+// locals assigned in several branches and for the variables of helpers that core.Expanded spliced into the function
+// (whose declarations lie outside the function body, and which are defined once per expansion site). The chain stops
+// at anything that is not a plain copy (op-assignment, ++, range variable, address taken, no definition on the path).
+func resolveOnPath(info *types.Info, g *core.Graph, path []int, at int, e ast.Expr) ast.Expr {
+	for depth := 0; depth < 8; depth++ {
+		id, ok := ast.Unparen(e).(*ast.Ident)
+		if !ok {
+			return e
+		}
+		v, isVar := core.ObjOf(info, id).(*types.Var)
+		if !isVar || v.IsField() || v.Pkg() == nil || v.Parent() == v.Pkg().Scope() {
+			return e
+		}
+		var def ast.Expr
+		found := false
+		for i := at - 1; i >= 0 && !found; i-- {
+			n := g.Nodes[path[i]]
+			if n == nil {
+				continue
+			}
+			switch s := n.(type) {
+			case *ast.AssignStmt:
+				for k, l := range s.Lhs {
+					if core.ObjOf(info, l) != types.Object(v) {
+						continue
+					}
+					found = true
+					if len(s.Lhs) == len(s.Rhs) && (s.Tok == token.ASSIGN || s.Tok == token.DEFINE) {
+						def, at = s.Rhs[k], i
+					}
+				}
+			case *ast.IncDecStmt:
+				if core.ObjOf(info, s.X) == types.Object(v) {
+					found = true
+				}
+			case *ast.DeclStmt:
+				if gd, ok := s.Decl.(*ast.GenDecl); ok {
+					for _, sp := range gd.Specs {
+						vs, ok := sp.(*ast.ValueSpec)
+						if !ok {
+							continue
+						}
+						for k, nm := range vs.Names {
+							if info.Defs[nm] == types.Object(v) {
+								found = true
+								if len(vs.Values) == len(vs.Names) {
+									def, at = vs.Values[k], i
+								}
+							}
+						}
+					}
+				}
+			case *ast.RangeStmt:
+				if core.ObjOf(info, s.Key) == types.Object(v) || core.ObjOf(info, s.Value) == types.Object(v) {
+					found = true
+				}
+			}
+		}
+		if def == nil {
+			return e
+		}
+		e = def
+	}
+	return e
+}
